@@ -168,7 +168,8 @@ def reader_shape(ctx):
             rc, _, _, steps = strace.run(st, argv)
             prog = strace.summarize(steps)
             ctx.count(1, key=("T3-reader", " ".join(argv)))
-            if any(s["call"] == "flock" for s in steps) or [p for p in prog if p.startswith("open(log")] != ["open(log,O_RDONLY)"]:
+            sh = strace.shape(ctx.model, steps)
+            if not sh["reader"] or any(s["call"] == "flock" for s in steps) or [p for p in prog if p.startswith("open(log")] != ["open(log,O_RDONLY)"]:
                 ctx.tie_broken("T3 reader shape", {"argv": argv, "program": prog, "expected": "no flock; the log opened exactly once, read-only"})
         ctx.tie("T3 reader shape", program=prog)
     finally:
